@@ -55,6 +55,7 @@ FLOORS = {
     'nested:shadowing': (0.10, 'nested:case'),
     'direct:shadowing': (0.10, 'direct:case'),
     'grid:value-verdict': (0.80, 'grid:case'),
+    'direct:stored-sequence-lookup': (0.05, 'direct:case'),
 }
 
 _DOC = None
@@ -552,6 +553,8 @@ def judge_one(ast, v, check, localize=True):
     # ---- localise: the smallest closed subexpression that fails on its own names the bucket
     if localize:
         for sub in sorted(_closed_subexprs(ast), key=lambda s: len(canon(s))):
+            if sub[0] in ('array', 'mapc'):      # map / array values are not observable through select()
+                continue
             ds, _ = judge_one(sub, v, check, localize=False)
             if ds:
                 d = ds[0]
@@ -590,6 +593,8 @@ def judge_expr(case, rec: Recorder | None = None, check='nested') -> list[Disc]:
             cls.append(f'{check}:nodes')
         if has_shadowing(ast):
             cls.append(f'{check}:shadowing')
+        if 'mapc' in tags or 'array' in tags:
+            cls.append(f'{check}:stored-sequence-lookup')
         if check == 'direct':
             cls.append('direct:' + construct_name(ast))
         rec.case([v, interp.render(ast)], nontrivial=(b or dp >= 2) and info['status'] != 'skipped',
